@@ -22,6 +22,8 @@ type params struct {
 	Env      []string `json:"env"`       // "ack:1", "cancel:1", "deadline:1" (the call's context has a deadline that expires), "close", "result:1"
 	SendFail bool     `json:"send_fail"` // the first transmission of call 1 may fail (environment deviation)
 	SendCtx  bool     `json:"send_ctx"`  // the transport refuses to transmit once the call's context is cancelled (as mtproto's writer does)
+	// DropFail: the drop handler reports an error (the rpc_drop_answer request is an RPC of its own that can fail or time out)
+	DropFail bool `json:"drop_fail,omitempty"`
 }
 
 type payload struct{ v int32 }
@@ -54,6 +56,9 @@ func body(p params, o *sx.Obs) {
 		return nil
 	}, rpc.Options{Clock: sx.Clock{}, RetryInterval: time.Second, MaxRetries: 5, DropHandler: func(req rpc.Request) error {
 		o.Log("drop %d", req.MsgID)
+		if p.DropFail {
+			return errors.New("drop: answer unknown")
+		}
 		return nil
 	}})
 	var g sx.Group
@@ -194,7 +199,11 @@ func check(p params, o *sx.Obs, x *vsched.Sched) kit.Result {
 			out = append(out, fmt.Sprintf("%d:waiting", id))
 			continue
 		}
-		_ = retStep
+		if kind == "closed-after-ack" && (closeBegin < 0 || closeBegin > retStep) {
+			// a cancellation error in whatever wrapping that was returned before ForceClose even began cannot stem from the
+			// close: the invocation ended because its own context ended, so it is a cancelled invocation
+			kind = "canceled"
+		}
 		switch kind {
 		case "engine-closed":
 			if !retry {
@@ -230,21 +239,30 @@ func check(p params, o *sx.Obs, x *vsched.Sched) kit.Result {
 }
 
 func scenarios() []params {
+	sc := func(calls int, sendFail, sendCtx bool, env ...string) params {
+		return params{Calls: calls, Env: env, SendFail: sendFail, SendCtx: sendCtx}
+	}
+	dropFail := func(p params) params { p.DropFail = true; return p }
 	return []params{
-		{1, []string{"close"}, false, false},
-		{1, []string{"ack:1", "close"}, false, false},
-		{2, []string{"ack:1", "close"}, false, false},
-		{2, []string{"ack:1", "ack:2", "close"}, false, false},
-		{1, []string{"cancel:1"}, true, false},
-		{1, []string{"cancel:1"}, false, true},
-		{1, []string{"ack:1", "cancel:1"}, true, false},
-		{1, []string{"ack:1", "cancel:1"}, false, true},
-		{1, []string{"cancel:1", "close"}, false, true},
-		{1, []string{"cancel:1", "result:1"}, false, false},
-		{1, []string{"deadline:1"}, false, false},
-		{1, []string{"ack:1", "deadline:1"}, false, true},
-		{2, []string{"cancel:1", "close"}, false, false},
-		{2, []string{"ack:2", "cancel:1", "close"}, false, true},
+		sc(1, false, false, "close"),
+		sc(1, false, false, "ack:1", "close"),
+		sc(2, false, false, "ack:1", "close"),
+		sc(2, false, false, "ack:1", "ack:2", "close"),
+		sc(1, true, false, "cancel:1"),
+		sc(1, false, true, "cancel:1"),
+		sc(1, true, false, "ack:1", "cancel:1"),
+		sc(1, false, true, "ack:1", "cancel:1"),
+		sc(1, false, true, "cancel:1", "close"),
+		sc(1, false, false, "cancel:1", "result:1"),
+		sc(1, false, false, "deadline:1"),
+		sc(1, false, true, "ack:1", "deadline:1"),
+		sc(2, false, false, "cancel:1", "close"),
+		sc(2, false, true, "ack:2", "cancel:1", "close"),
+		// the drop request itself fails
+		dropFail(sc(1, false, false, "cancel:1")),
+		dropFail(sc(1, false, true, "ack:1", "cancel:1")),
+		// three parties: one acknowledged, one cancelled, one neither
+		sc(3, false, false, "ack:1", "cancel:2", "close"),
 	}
 }
 
@@ -262,10 +280,11 @@ func main() {
 			sx.Explore(c, mk(scs[0]), 0, 0, 1)
 			return
 		}
-		c.Rule("real rpc.Engine (instrumented), 1-2 Do calls x {ack, cancel, ForceClose, result} environment threads x optional failing first transmission; every "+
-			"schedule with <= %d deviations (one less for 2-call scenarios); oracle: ForceClose returns and every call returns (no stranded caller); a call never "+
+		c.Rule("real rpc.Engine (instrumented), 1-3 Do calls x {ack, cancel, deadline, ForceClose, result} environment threads x optional failing first transmission / transport that refuses a cancelled "+
+			"context / failing drop handler; every schedule with <= %d deviations (one less for 2-call, two less for 3-call scenarios); oracle: ForceClose returns and every call returns (no stranded caller); a call never "+
 			"acknowledged fails with rpc.ErrEngineClosed and pool classifies it retryable; a call whose ack completed before ForceClose began never gets the "+
-			"retryable error; only engine-closed errors are retryable; a call that returned context.Canceled sent exactly one drop iff it had been transmitted, others none.", bound)
+			"retryable error; only engine-closed errors are retryable; a call that returned its context's error (context.Canceled / DeadlineExceeded, or any wrapping of a cancellation returned before ForceClose began) "+
+			"sent exactly one drop iff it had been transmitted, others none.", bound)
 		c.Assume("interval-based reading of 'acknowledged before close': only an ack delivery that completed before ForceClose started constrains")
 		type unit struct{ sc, shard, shards int }
 		var units []unit
@@ -284,7 +303,7 @@ func main() {
 		u := units[c.Shard]
 		b := bound
 		if scs[u.sc].Calls > 1 {
-			b--
+			b -= scs[u.sc].Calls - 1
 		}
 		sx.Explore(c, mk(scs[u.sc]), b, u.shard, u.shards)
 	})
